@@ -7,7 +7,7 @@ using namespace datasketches;
 namespace vf {
 const char* property_id() { return "C19"; }
 unsigned case_timeout_s() { return 120; }
-uint64_t num_cases(bool thorough) { return thorough ? 12000 : 640; }
+uint64_t num_cases(bool thorough) { return 2 * (thorough ? 3000 : 160); }
 void final_report() {}
 
 template<typename T, typename W> struct FiFam {
